@@ -1005,7 +1005,8 @@ func (m *Manager) ChangePassphrase(ns walletdb.ReadWriteBucket, oldPassphrase,
 		// If unlocked, create the new passphrase hash with the new
 		// passphrase and salt.
 		var hashedPassphrase [sha512.Size]byte
-		if m.IsLocked() {
+		wasLocked := m.IsLocked()
+		if wasLocked {
 			newMasterKey.Zero()
 		} else {
 			saltedPassphrase := append(passphraseSalt[:],
@@ -1034,10 +1035,16 @@ func (m *Manager) ChangePassphrase(ns walletdb.ReadWriteBucket, oldPassphrase,
 			m.mtx.Lock()
 			defer m.mtx.Unlock()
 
-			// The manager may have been locked since.
+			// The manager may have been locked since. If it was
+			// unlocked since instead, with the passphrase that
+			// is no longer valid, neither the new master key in
+			// clear text nor the new passphrase hash is at hand:
+			// lock it again.
 			if m.IsLocked() {
 				newMasterKey.Zero()
 				hashedPassphrase = [sha512.Size]byte{}
+			} else if wasLocked {
+				m.lock()
 			}
 
 			copy(m.cryptoKeyPrivEncrypted, encPriv)
